@@ -193,8 +193,6 @@ class Inbound:
                     if self.incremental and self.serial != soa.serial:
                         raise dns.exception.FormError("unexpected end of IXFR sequence")
                     self.txn.replace(name, rdataset)
-                    self.txn.commit()
-                    self.txn = None
                     self.done = True
                 else:
                     #
@@ -249,6 +247,14 @@ class Inbound:
             # get the proper "truncated" response
             #
             raise dns.exception.FormError("unexpected end of UDP IXFR")
+        if self.done and self.txn is not None:
+            #
+            # We commit only after the whole message has been checked, so
+            # that records following the final SOA are reported without the
+            # transfer having been applied.
+            #
+            self.txn.commit()
+            self.txn = None
         return self.done
 
     #
